@@ -300,7 +300,7 @@ class SoftwareSwitchBase (object):
     #self._process_flow_mod(ofp, connection=connection, table=self.table)
     handler = self.flow_mod_handlers.get(ofp.command)
     if handler is None:
-      self.log.warn("Command not implemented: %s" % command)
+      self.log.warn("Command not implemented: %s" % ofp.command)
       self.send_error(type=OFPET_FLOW_MOD_FAILED, code=OFPFMFC_BAD_COMMAND,
                       ofp=ofp, connection=connection)
       return
